@@ -45,7 +45,21 @@ BRACKET_FORMATS = ("brackets", "discobrackets")
 
 def _counter(trees):
     """the next value of Tree.newid, without drawing it"""
-    return int(re.match(r"count\((\d+)\)", repr(trees.Tree.newid)).group(1))
+    c = trees.Tree.newid
+    m = re.match(r"count\((\d+)\)", repr(c))
+    if m:
+        return int(m.group(1))
+    # not an itertools.count any more (seeded change C18-t09 makes it a cycle): peek at a copy; if the generator cannot be
+    # copied the counter is unknown (-1: the comparison with the model then fails as a broken correspondence, it does not
+    # crash the check)
+    try:
+        import copy
+        import warnings
+        with warnings.catch_warnings():
+            warnings.simplefilter("ignore")
+            return int(next(copy.copy(c)))
+    except Exception:
+        return -1
 
 
 def _leafnums(node):
